@@ -226,23 +226,15 @@ theorem lwr_solves (h0 : star (r 0) = r 0) (P : ℕ) (hinv : InvOK inv r P) :
     simp only [mem_range] at hi
     rw [coefA_eq inv r P i (by omega)]
 
-/-- **C11 MAR_est_LWR, intended.** With `nlags = order + 1` the estimator returns `order` matrices
-(and by `lwr_solves` they solve the order-`order` system). -/
-theorem marEst_intended_order (order : ℕ) :
-    (@marEstLWR M (ringOps inv) true r order).1.length = order := by
+/-- **C11 MAR_est_LWR.** `MAR_est_LWR(x, order=P)` returns `P` coefficient matrices; by
+`lwr_solves` (with `P` for the order) they solve the order-`P` block system. -/
+theorem marEst_order (order : ℕ) :
+    (@marEstLWR M (ringOps inv) r order).1.length = order := by
   simp [marEstLWR, marLags, lwr_length]
 
-/-- **C11 MAR_est_LWR, today's code (finding `mar/order-off-by-one`).** -/
-theorem marEst_current_partial (order : ℕ) :
-    (@marEstLWR M (ringOps inv) false r order).1.length = order - 1 := by
-  simp [marEstLWR, marLags, lwr_length]
-
-theorem marEst_current_counterexample :
-    ¬ ∀ order, 1 ≤ order → (@marEstLWR M (ringOps inv) false r order).1.length = order := by
-  intro h
-  have := h 1 le_rfl
-  rw [marEst_current_partial] at this
-  omega
+theorem marEst_is_lwr (order : ℕ) :
+    @marEstLWR M (ringOps inv) r order = @lwr M (ringOps inv) r order := by
+  simp [marEstLWR, marLags]
 
 end bridge
 
